@@ -7,6 +7,7 @@ extern "C" {
 #include <ksi/net.h>
 }
 #include <algorithm>
+#include <set>
 using namespace vf;
 
 extern "C" const char *harness_id() { return "C15"; }
@@ -24,7 +25,7 @@ static Bytes validReply(uint64_t rid, int reqNo, int e) {
     Chooser ch{[&](uint32_t) { return 0u; }, [&]() { return (uint8_t)(reqNo * 13 + 5); }}; BuildOpts o; o.fixedDoc = true; o.doc = hashOf(reqNo); o.wantRfc = 0; o.wantCal = 1; o.wantPub = 0; o.wantAuth = 1; o.maxChains = 1; o.fixedTime = true; o.t = 1500000000 + reqNo; o.fixedPubTime = true; o.p = o.t + 10 + e; o.calSalt = 4;
     Sig s = buildConsistent(ch, o); Header h; return sealV2(0x221, h, {aggrRespPayload(2, rid, true, 0, "", &s, 0)}, keyB(), 1);
 }
-struct Got { std::string othersWhat; int responses = 0, errors = 0, notices = 0, others = 0; uint64_t pubTime = 0; int err = 0; std::vector<int> noticeErr; };
+struct Got { std::string othersWhat; int responses = 0, errors = 0, notices = 0, others = 0; uint64_t pubTime = 0; int err = 0; std::vector<int> noticeErr; std::vector<size_t> noticeParent; size_t winnerParent = 0; };
 
 // one request through k endpoints with given outcomes, made visible in the given arrival order
 // prelude > 0: before the request under test, another HA service on the SAME context gets a request that is dropped while responses are still outstanding (service freed after prelude-1 runs)
@@ -53,10 +54,10 @@ static void singleRequest(Case &c, int k, const int *outc, const int *order, std
     int addRes = KSI_AsyncService_addRequest(has, h); if (addRes != KSI_OK) { KSI_AsyncHandle_free(h); VF_FAIL(c, "C15:add-refused", "HA addRequest failed res=" + num(addRes) + " although endpoints accept requests"); KSI_AsyncService_free(has); return; }
     Got g; std::vector<int> arrival; // endpoint indices in the order in which their outcome became visible to the client
     auto drainRuns = [&](int n) { for (int i = 0; i < n; i++) { KSI_AsyncHandle *out = nullptr; size_t w = 0; KSI_AsyncService_run(has, &out, &w); if (!out) continue; int st = 0; KSI_AsyncHandle_getState(out, &st);
-            if (st == KSI_ASYNC_STATE_RESPONSE_RECEIVED && flavour == 2) { g.responses++; KSI_ExtendResp *rp = nullptr; KSI_AsyncHandle_getExtendResp(out, &rp); KSI_CalendarHashChain *cc = nullptr; if (rp) KSI_ExtendResp_getCalendarHashChain(rp, &cc); KSI_DataHash *ih = nullptr; if (cc) KSI_CalendarHashChain_getInputHash(cc, &ih); const unsigned char *ip = nullptr; size_t il = 0; if (ih) KSI_DataHash_getImprint(ih, &ip, &il);
+            if (st == KSI_ASYNC_STATE_RESPONSE_RECEIVED && flavour == 2) { g.responses++; KSI_AsyncHandle_getParentId(out, &g.winnerParent); KSI_ExtendResp *rp = nullptr; KSI_AsyncHandle_getExtendResp(out, &rp); KSI_CalendarHashChain *cc = nullptr; if (rp) KSI_ExtendResp_getCalendarHashChain(rp, &cc); KSI_DataHash *ih = nullptr; if (cc) KSI_CalendarHashChain_getInputHash(cc, &ih); const unsigned char *ip = nullptr; size_t il = 0; if (ih) KSI_DataHash_getImprint(ih, &ip, &il);
                 g.pubTime = 0; for (int e = 0; e < 3; e++) { Bytes hb = hashOf(40 + e); if (ip && il == hb.size() && !memcmp(ip, hb.data(), il)) g.pubTime = 1500000000ULL + 10 + (uint64_t)e; } KSI_Integer *pt = nullptr; if (cc) KSI_CalendarHashChain_getPublicationTime(cc, &pt); if (KSI_Integer_getUInt64(pt) != kExtP) g.pubTime = 1; /* a chain to another time than requested */ if (out != h) g.others++; }
-            else if (st == KSI_ASYNC_STATE_RESPONSE_RECEIVED) { g.responses++; KSI_AggregationResp *rp = nullptr; KSI_AsyncHandle_getAggregationResp(out, &rp); KSI_CalendarHashChain *cc = nullptr; if (rp) KSI_AggregationResp_getCalendarChain(rp, &cc); KSI_Integer *pt = nullptr; if (cc) KSI_CalendarHashChain_getPublicationTime(cc, &pt); g.pubTime = KSI_Integer_getUInt64(pt); if (out != h) g.others++; }
-            else if (st == KSI_ASYNC_STATE_ERROR) { g.errors++; KSI_AsyncHandle_getError(out, &g.err); if (out != h) g.others++; } else if (st == KSI_ASYNC_STATE_ERROR_NOTICE) { g.notices++; int e = 0; KSI_AsyncHandle_getError(out, &e); g.noticeErr.push_back(e); } else if (st == KSI_ASYNC_STATE_PUSH_CONFIG_RECEIVED && flavour == 1) { c.cls("single:configuration-delivered-as-handle"); /* the consolidated configuration, delivered as a handle of its own when no callback is installed */ } else { g.others++; g.othersWhat += "state" + num(st) + (out == h ? "(own)" : "(foreign)") + " "; }
+            else if (st == KSI_ASYNC_STATE_RESPONSE_RECEIVED) { g.responses++; KSI_AsyncHandle_getParentId(out, &g.winnerParent); KSI_AggregationResp *rp = nullptr; KSI_AsyncHandle_getAggregationResp(out, &rp); KSI_CalendarHashChain *cc = nullptr; if (rp) KSI_AggregationResp_getCalendarChain(rp, &cc); KSI_Integer *pt = nullptr; if (cc) KSI_CalendarHashChain_getPublicationTime(cc, &pt); g.pubTime = KSI_Integer_getUInt64(pt); if (out != h) g.others++; }
+            else if (st == KSI_ASYNC_STATE_ERROR) { g.errors++; KSI_AsyncHandle_getError(out, &g.err); if (out != h) g.others++; } else if (st == KSI_ASYNC_STATE_ERROR_NOTICE) { g.notices++; int e = 0; KSI_AsyncHandle_getError(out, &e); g.noticeErr.push_back(e); size_t pid = 0; KSI_AsyncHandle_getParentId(out, &pid); g.noticeParent.push_back(pid); } else if (st == KSI_ASYNC_STATE_PUSH_CONFIG_RECEIVED && flavour == 1) { c.cls("single:configuration-delivered-as-handle"); /* the consolidated configuration, delivered as a handle of its own when no callback is installed */ } else { g.others++; g.othersWhat += "state" + num(st) + (out == h ? "(own)" : "(foreign)") + " "; }
             KSI_AsyncHandle_free(out); } };
     drainRuns(3); // connect + send everywhere; refused endpoints fail here
     for (int e = 0; e < k; e++) if (outc[e] == OC_REFUSED) arrival.push_back(e);
@@ -82,6 +83,8 @@ static void singleRequest(Case &c, int k, const int *outc, const int *order, std
         else if (g.others) VF_FAIL(c, "C15:foreign-handle-returned", "a handle other than the submitted request was returned in a final state " + g.othersWhat + desc);
         else if (firstValid >= 0) { if (!g.responses) VF_FAIL(c, "C15:valid-reply-but-error", "an endpoint replied validly but the request ended with error " + num(g.err) + " " + desc); else if (g.pubTime != 1500000000ULL + 10 + (uint64_t)firstValid) VF_FAIL(c, "C15:not-the-first-valid-response", "the delivered response is not the first valid one in arrival order " + desc); }
         else { if (g.responses) VF_FAIL(c, "C15:response-without-valid-reply", "a response was delivered although no endpoint replied validly " + desc); }
+        // an error notice names the sub-service whose failure it reports: never the one whose valid reply completed the request, and no sub-service twice
+        if (!c.fail) { std::set<size_t> seen; for (size_t pid : g.noticeParent) { if (g.responses && pid == g.winnerParent) { VF_FAIL(c, "C15:error-notice-names-the-endpoint-that-answered-validly", "an error notice carries the service id of the endpoint whose valid reply completed the request " + desc); break; } if (!seen.insert(pid).second) { VF_FAIL(c, "C15:error-notice-names-the-same-endpoint-twice", "two error notices carry the same service id " + desc); break; } } }
         if (!c.fail && g.notices > failures) VF_FAIL(c, "C15:too-many-error-notices", num(g.notices) + " error notices for " + num(failures) + " failing endpoints " + desc);
     }
     c.cls(firstValid >= 0 ? "single:response" : "single:all-failed"); if (g.notices) c.cls("error-notice-seen");
